@@ -107,3 +107,60 @@ func recvOfLockCall(c ssa.CallInstruction) ssa.Value {
 	}
 	return c.Common().Args[0]
 }
+
+// checkStopOrder: BitcoinNode.Stop closes the connection before it closes the outgoing message
+// channel. MessageChannel.Add sends while holding the channel's mutex and Close needs that mutex;
+// with the queue full a sender is parked in Add, and only the closed connection makes sendOutgoing
+// fail, flush the queue and release it. Closing the channel first blocks Stop for ever with the
+// connection still open (a refused peer is never disconnected; Run never returns).
+func checkStopOrder(p *load.Program, r *kit.Report, rule string) {
+	f := fn(p, r, rule, R, "BitcoinNode.Stop")
+	if f == nil {
+		return
+	}
+	connF := p.Field(R, "BitcoinNode", "connection")
+	chanF := p.Field(R, "BitcoinNode", "outgoingMsgChannel")
+	var connClose, chClose ssa.Instruction
+	kit.AllInstrs(f, func(in ssa.Instruction) {
+		c, ok := in.(ssa.CallInstruction)
+		if !ok {
+			return
+		}
+		com := c.Common()
+		if com.IsInvoke() && com.Method.Name() == "Close" && loadOfField(kit.Strip(com.Value), connF) {
+			connClose = in
+		}
+		if kit.CallID(c) == R+".MessageChannel.Close" && len(com.Args) > 0 {
+			if fl, _ := kit.FieldOfAddr(com.Args[0]); fl == chanF {
+				chClose = in
+			}
+		}
+	})
+	pos := posOf(p, f.Blocks[0].Instrs[0])
+	bad := ""
+	switch {
+	case connClose == nil:
+		bad = "Stop does not close the connection"
+	case chClose == nil:
+		bad = "Stop does not close the outgoing message channel"
+	default:
+		// the channel close is not reachable before the connection-closing section: every path to
+		// it passes the test of n.connection (the close itself when a connection exists)
+		nilTests := kit.FindGuards(f, func(c ssa.Value) (bool, bool) {
+			b, ok := c.(*ssa.BinOp)
+			if !ok || (b.Op != token.EQL && b.Op != token.NEQ) || !kit.IsNilConst(b.Y) || !loadOfField(kit.Strip(b.X), connF) {
+				return false, false
+			}
+			return true, b.Op == token.NEQ
+		})
+		var after []kit.Edge
+		for _, g := range nilTests {
+			after = append(after, g.FailEdge()) // no connection: nothing to close
+		}
+		pre := kit.Reach(f, []kit.Pt{kit.Entry(f)}, kit.Opts{StopAt: kit.InstrSet(connClose), BlockEdge: kit.EdgeSet(after...)})
+		if pre.Has(chClose) {
+			bad = "the outgoing message channel is closed (" + posOf(p, chClose) + ") before the connection (" + posOf(p, connClose) + "): with a full queue a sender is parked inside MessageChannel.Add holding the mutex that Close needs, and only the closed connection releases it — Stop blocks for ever with the connection open"
+		}
+	}
+	r.Check(bad == "", rule, "BitcoinNode.Stop/connection-before-channel", pos, "connection.Close() precedes outgoingMsgChannel.Close()", bad)
+}
